@@ -737,6 +737,16 @@ class Engine:
             env.locals['__g_' + gname] = self.havoc_like(env.locals['__g_' + gname], gt, gname)
         for hx in inv.get('havoc_heap', []):
             self.havoc_heap(self.eval_spec(hx, env, self.ghost_env(env)))
+        shaped = {}
+        for hx, nshape in inv.get('elem_tuple', {}).items():
+            # every element of this list is an n-tuple: assumed for the elements appended by earlier iterations,
+            # checked for every append of the iteration at hand (obligation below)
+            r = self.eval_spec(hx, env, self.ghost_env(env))
+            hl = self.heap[r.addr]
+            if not (isinstance(hl, HList) and hl.base is not None and not hl.items):
+                raise Unsupported('elem_tuple: %s is not a havoced list' % hx)
+            hl.base.shape = nshape
+            shaped[r.addr] = (hx, nshape)
         for (ox, field, typ) in inv.get('havoc_fields', []):
             self.havoc_field(self.eval_spec(ox, env, self.ghost_env(env)), field, typ)
         for gx in inv.get('havoc_ghost', []):
@@ -815,6 +825,11 @@ class Engine:
             if changed:
                 raise Unsupported('loop %d of %s modifies heap objects not declared in havoc_heap/havoc_fields: %s'
                                   % (ordn, fq, [heap_snap[a][:80] for a in changed][:3]))
+            for addr, (hx, nshape) in shaped.items():
+                apps = [t for t in self.trace[trace_mark:] if t[0] == 'list_append' and t[1] == addr]
+                okk = all(isinstance(t[3], VT) and len(t[3].items) == nshape for t in apps)
+                self.oblige('%s::loop%d.elem_shape.%s' % (fq, ordn, hx), bool(okk), kind='invariant',
+                            detail='every element appended to %s is a %d-tuple' % (hx, nshape))
             check_inv('preserved')
             if dec_expr:
                 d1 = self.as_z3_int(self.eval_spec(dec_expr, env, self.ghost_env(env)))
@@ -1053,6 +1068,9 @@ class Engine:
                 if len(h.items) != n:
                     raise PyRaise(VExc('ValueError', [VC('unpack length')]))
                 return list(h.items)
+        if isinstance(v, VO) and self.tfacts.get((v.name, 'tuple')) and self.valid(len_of(v.t) == n):
+            f = z3.Function('titem', Val, z3.IntSort(), Val)
+            return [VO_term(f(v.t, I(i)), '%s[%d]' % (v.name, i)) for i in range(n)]
         if isinstance(v, VO):
             # unpacking an unknown object: may fail with TypeError/ValueError
             if self.decide(2, 'unpack') == 1:
@@ -1305,6 +1323,8 @@ class Engine:
                 return self.getitem(args[0], h.fields['k'])
             if isinstance(h, HObj) and h.lazy:
                 return self.opaque_call(self.fresh_opaque('callobj'), args, kwargs, node)
+        if isinstance(fn, (VC, VI, VS, VB, VT, VR)):
+            raise PyRaise(VExc('TypeError', [VC('object is not callable')]))
         raise Unsupported('call of %r' % (fn,))
 
     def use_contract_for(self, fn):
@@ -1324,11 +1344,23 @@ class Engine:
             'modelled heap as they found them (protocol proved for the repo\'s own render functions)')
         lbl = label or ('call %s' % getattr(fn, 'name', '?'))
         self.trace.append(('call', getattr(fn, 'name', repr(fn)), tuple(_tr(a) for a in args), fn, list(args)))
+        nm = getattr(fn, 'name', None)
+        model_nc = (getattr(self.cur_contract, 'model_not_callable', False) and isinstance(fn, VO) and label is None
+                    and getattr(fn, 'proto', None) is None)
+        if model_nc:
+            # the value called may not be callable at all: TypeError, decided by the observer callable_(v)
+            cal = z3.Function('callable_', Val, z3.BoolSort())(fn.t)
+            if not self.branch(cal, lbl + ' callable'):
+                self.trace.append(('raised-by', nm, 'not-callable'))
+                raise PyRaise(VExc('TypeError', [VC('object is not callable')]))
         if self.decide(2, lbl + ' raises') == 1:
             e = VExc('Exception', [], sym=True, uid=self.fresh('exc'))
             self.trace.append(('raised-by', getattr(fn, 'name', repr(fn))))
             raise PyRaise(e)
         r = self.fresh_opaque('ret')
+        if getattr(fn, 'proto', None) == 'int-valued':
+            self.tfacts[(r.name, 'int')] = True
+            self.assumptions_used.add('comparison functions named in a sort option return integers')
         self.trace.append(('returned', getattr(fn, 'name', repr(fn)), r.name, r))
         return r
 
@@ -1583,7 +1615,12 @@ class Engine:
         """element k of an abstract sequence (0 <= k < len assumed by caller)"""
         if isinstance(k, int):
             k = I(k)
-        return VO_term(sq.elem(k), '%s[%s]' % (sq.name, z3.simplify(k)))
+        v = VO_term(sq.elem(k), '%s[%s]' % (sq.name, z3.simplify(k)))
+        if getattr(sq, 'shape', None):
+            self.tfacts[(v.name, 'tuple')] = True
+            self.tfacts[(v.name, 'exact:tuple')] = True
+            self.assume(len_of(v.t) == sq.shape)
+        return v
 
     def list_get(self, h, idx):
         """h[idx] with idx a z3 Int / int known to be in range (non-negative)"""
